@@ -170,7 +170,7 @@ pub fn run_fam(cfg: &RunCfg, blocking: bool) -> Report {
 					prop: v.prop.into(),
 					rule: v.rule.into(),
 					detail: v.detail.clone(),
-					signature: format!("{}:{}", v.prop, v.rule),
+					signature: sig_of(v),
 					case: format!("{} {}", arena_desc(arena_spec), target_desc(target)),
 					index: i,
 					log: out.log.iter().rev().take(60).rev().cloned().collect(),
